@@ -830,6 +830,8 @@ func TestC32(t *testing.T) {
 		"over another payload, and with one superfluous signer; header edits (serial, base, ISD with a full ISD-2 certificate set, noTrustReset, " +
 		"invalid payload, nil predecessor, base TRC with predecessor) x representative updates; successors whose certificate ORDER differs from the " +
 		"predecessor's (reversed, rotations, every exchange of two positions) x every certificate-set edit x every duplicate-free single-class vote list; " +
+		"core and authoritative AS lists (3 entries each) with an entry removed / replaced / inserted at every position, two trailing entries removed, " +
+		"reordered, x every certificate-set edit x every duplicate-free single-class vote list; " +
 		" base TRCs with each voter signature missing/forged. " +
 		"distinct key = the full symbolic description; non-trivial = anything but the unedited full-signer case"
 	cr := &c32Runner{r: r, reasons: map[string]int64{}}
